@@ -31,6 +31,10 @@ type wlWG struct {
 	// Prelude (base variant): models built on the same builder value before the
 	// model under test (a call history).
 	Prelude []*Model `json:"prelude,omitempty"`
+	// ReuseObject: the caller keeps ONE model object: after the last prelude
+	// build it overwrites that object in place with the model under test and
+	// builds it again (a cache keyed by the identity of the input is stale then).
+	ReuseObject bool `json:"reuse_object,omitempty"`
 }
 
 type wgOutcome struct {
@@ -644,7 +648,15 @@ func (c *wgCtx) check0(cfg simrt.Config) ([]mismatch, simrt.Stats, string) {
 					// the caller owns what was returned: it may write all over it
 					scribbleWeighted(o.G)
 				}
-				out = doBuildWith(builder, c.pm)
+				if wl.ReuseObject {
+					obj := pre[len(pre)-1]
+					proto.Reset(obj)
+					proto.Merge(obj, c.pm)
+					simrt.CountFault("history.object_reused")
+					out = doBuildWith(builder, obj)
+				} else {
+					out = doBuildWith(builder, c.pm)
+				}
 			}})
 			st = simrt.End()
 		}
@@ -950,7 +962,10 @@ func wgRunOne(b *BatchResult, prop string, seed, run uint64, p wgParams) {
 		m = genSeparatorCollision(r)
 		b.Mix["separator_collision_models"]++
 	} else if r.chance(2) {
-		switch r.intn(4) {
+		switch r.intn(5) {
+		case 4:
+			m = genManyRestrictions(r)
+			b.Mix["many_restrictions_models"]++
 		case 0:
 			m = genDeepNesting(r)
 			b.Mix["deep_nesting_models"]++
@@ -1137,6 +1152,7 @@ func wgRunOne(b *BatchResult, prop string, seed, run uint64, p wgParams) {
 			}
 			wlh.Prelude = append(wlh.Prelude, pm)
 		}
+		wlh.ReuseObject = r.chance(30)
 		ch := &wgCtx{wl: wlh, ref: c.ref, pm: c.pm, canon: c.canon, csnap: c.csnap}
 		s := canonS
 		if len(fam) > 0 && r.chance(50) {
